@@ -11,7 +11,7 @@ fn two(b: &[u8], i: usize) -> u32 {
     ((b[i] - b'0') * 10 + (b[i + 1] - b'0')) as u32
 }
 
-// @ob tier=quick timeout=2400 mem=14
+// @ob tier=thorough timeout=7200 mem=24
 // @desc RFC 3339 rendering (the real write_rfc3339, reached through the public `Fixed::RFC3339` item into a fixed buffer): for every date-time with wall-clock year 0..=9999 and every whole-minute offset the text is `YYYY-MM-DDTHH:MM:SS[.fff[fff[fff]]]+HH:MM`; every position is in the grammar's character class, the fields are the wall-clock fields (second 60 for a leap second), the fraction is the shortest of 0/3/6/9 digits that loses nothing (truncated never rounded), sign/hours/minutes of the offset are exact
 // @bounds wall-clock years 0..=9999, all times incl. leap fraction on second 59, whole-minute offsets in (-24h, 24h); output <= 35 bytes (unwind 12 for the fraction digits)
 // @funcs write_rfc3339 (via Fixed::RFC3339 item), OffsetFormat::format, write_hundreds, DelayedFormat::format_fixed
@@ -70,4 +70,85 @@ fn c10_writer_shape() {
     kani::cover!(leap);
     kani::cover!(nd == 6);
     kani::cover!(mins == 0);
+}
+
+#[cfg(kani)]
+fn render(dt: &chrono::DateTime<FixedOffset>) -> Buf<36> {
+    use chrono::format::{Fixed, Item};
+    let items = [Item::Fixed(Fixed::RFC3339)];
+    let mut buf = Buf::<36>::new();
+    assert!(dt.format_with_items(items.iter()).write_to(&mut buf).is_ok() && !buf.overflow);
+    buf
+}
+
+// @ob tier=quick timeout=900 mem=14
+// @desc RFC 3339 writer, date part: for every wall-clock date with year 0..=9999 (time fixed to 12:34:56, offset +00:00) the text starts with YYYY-MM-DD in zero-padded digits equal to the date's fields, followed by T12:34:56+00:00
+// @bounds all dates with year 0..=9999; time of day and offset concrete (the writer emits date, time and offset independently of each other)
+// @funcs write_rfc3339 (date part), write_hundreds
+// @outside time / fraction / offset rendering: c10_writer_time_part; years outside 0..=9999
+#[kani::proof]
+#[kani::unwind(12)]
+fn c10_writer_date_part() {
+    let d = any_date();
+    let (y, m, dd) = (d.year(), d.month(), d.day());
+    kani::assume(y >= 0 && y <= 9999 && valid_ymd(y, m, dd));
+    let dt = FixedOffset::east_opt(0).unwrap().from_utc_datetime(&d.and_hms_opt(12, 34, 56).unwrap());
+    let buf = render(&dt);
+    let b = &buf.b;
+    assert!(dig(b[0]) && dig(b[1]) && dig(b[2]) && dig(b[3]) && b[4] == b'-' && dig(b[5]) && dig(b[6]) && b[7] == b'-' && dig(b[8]) && dig(b[9]));
+    assert!(two(b, 0) * 100 + two(b, 2) == y as u32 && two(b, 5) == m && two(b, 8) == dd);
+    assert!(buf.len == 25 && b[10] == b'T' && b[11] == b'1' && b[12] == b'2' && b[13] == b':' && b[19] == b'+' && b[22] == b':');
+    kani::cover!(y == 0);
+    kani::cover!(m == 2 && dd == 29);
+}
+
+// @ob tier=quick timeout=900 mem=14
+// @desc RFC 3339 writer, time / fraction / offset part: on the fixed wall-clock date 2001-07-08, for every time of day (second 60 for a leap second), every fraction and every whole-minute offset the text is HH:MM:SS, then the shortest of 0/3/6/9 fraction digits that loses nothing (never rounded), then +HH:MM / -HH:MM with exact hours and minutes
+// @bounds all times of day incl. leap fraction on second 59 x all whole-minute offsets in (-24h, 24h); date concrete
+// @funcs write_rfc3339 (time, AutoSi fraction), OffsetFormat::format, write_hundreds
+#[kani::proof]
+#[kani::unwind(12)]
+fn c10_writer_time_part() {
+    let secs: u32 = kani::any();
+    let frac: u32 = kani::any();
+    kani::assume(secs < 86_400 && (frac < 1_000_000_000 || (frac < 2_000_000_000 && secs % 60 == 59)));
+    let t = NaiveTime::from_num_seconds_from_midnight_opt(secs, frac).unwrap();
+    let mins: i32 = kani::any();
+    kani::assume(mins > -1440 && mins < 1440);
+    let off = FixedOffset::east_opt(mins * 60).unwrap();
+    let local = NaiveDate::from_ymd_opt(2001, 7, 8).unwrap().and_time(t);
+    let dt = match off.from_local_datetime(&local) {
+        chrono::offset::LocalResult::Single(x) => x,
+        _ => return,
+    };
+    let buf = render(&dt);
+    let b = &buf.b;
+    assert!(b[0] == b'2' && b[3] == b'1' && b[5] == b'0' && b[6] == b'7' && b[8] == b'0' && b[9] == b'8' && b[10] == b'T');
+    assert!(dig(b[11]) && dig(b[12]) && b[13] == b':' && dig(b[14]) && dig(b[15]) && b[16] == b':' && dig(b[17]) && dig(b[18]));
+    let leap = frac >= 1_000_000_000;
+    assert!(two(b, 11) == secs / 3600 && two(b, 14) == secs / 60 % 60 && two(b, 17) == secs % 60 + if leap { 1 } else { 0 });
+    let ns = frac % 1_000_000_000;
+    let nd: usize = if ns == 0 { 0 } else if ns % 1_000_000 == 0 { 3 } else if ns % 1000 == 0 { 6 } else { 9 };
+    let mut p = 19;
+    if nd > 0 {
+        assert!(b[19] == b'.');
+        let mut v: u32 = 0;
+        let mut i = 0;
+        while i < 9 {
+            if i < nd {
+                assert!(dig(b[20 + i]));
+                v = v * 10 + (b[20 + i] - b'0') as u32;
+            }
+            i += 1;
+        }
+        let scale = if nd == 3 { 1_000_000 } else if nd == 6 { 1000 } else { 1 };
+        assert!(v * scale == ns);
+        p = 20 + nd;
+    }
+    let a = if mins < 0 { -mins } else { mins } as u32;
+    assert!(b[p] == if mins < 0 { b'-' } else { b'+' } && b[p + 3] == b':' && two(b, p + 1) == a / 60 && two(b, p + 4) == a % 60);
+    assert!(buf.len == p + 6);
+    kani::cover!(leap);
+    kani::cover!(nd == 6);
+    kani::cover!(mins < 0);
 }
